@@ -109,7 +109,20 @@ def model_family(tier):
     for (kind, n, K, depth, which, first) in L:
         pts, grid = points(n, which)
         fam.append({"id": len(fam) + 1, "kind": kind, "n": n, "K": K, "depth": depth, "jump": True, "first": first,
-                    "D": embed.dist_matrix(pts), "pts": pts, "grid": grid})
+                    "D": embed.dist_matrix(pts), "pts": pts, "grid": grid, "ext": []})
+    # external solutions (env.step_to_solution(td, tour)): two tours for the first instance of each kind -- the visiting
+    # orders 0,1,2,...,n-1 and 0,2,4,...,1,3,... as successor arrays (both respect pickup-before-delivery)
+    done = set()
+    for inst in fam:
+        key = (inst["kind"], inst["K"] > 2)
+        if key in done or inst["n"] != 5:
+            continue
+        done.add(key)
+        for order in (list(range(inst["n"])), [0, 2, 4, 1, 3]):
+            rec = [0] * inst["n"]
+            for a, b in zip(order, order[1:] + order[:1]):
+                rec[a] = b
+            inst["ext"].append(rec)
     return fam
 
 
@@ -123,7 +136,7 @@ def weight(inst):
     else:
         tours = math.factorial(n - 1) // ((n - 1) if inst["first"] else 1)
         moves = n * (n - 1) if inst["K"] == 2 else n * (n - 3) * (n - 2) // 2
-    return tours * (moves + 1) ** d
+    return tours * (moves + 1 + len(inst.get("ext", []))) ** d
 
 
 def run_model(group):
@@ -192,7 +205,7 @@ def run_paths(env, inst, rec0s, hists):
     base = embed.locs_tensor(inst["pts"], g)
     groups = {}
     for r, h in enumerate(hists):
-        groups.setdefault(tuple(a == JUMP for a in h), []).append(r)
+        groups.setdefault(tuple((1 if a == JUMP else 2 if a[0] == -2 else 0) for a in h), []).append(r)
     out = [None] * len(hists)
     tds = {}
     for pat, rows in groups.items():
@@ -201,8 +214,10 @@ def run_paths(env, inst, rec0s, hists):
         if "reward" not in td.keys():
             td["reward"] = torch.zeros(B)
         for j, isjump in enumerate(pat):
-            if isjump:
+            if isjump == 1:
                 td = env.step_to_solution(td, td["rec_best"])
+            elif isjump == 2:                # an external solution per row
+                td = env.step_to_solution(td, torch.tensor([list(hists[r][j][1:]) for r in rows]))
             else:
                 td["action"] = torch.tensor([hists[r][j] for r in rows])
                 env.step(td)
@@ -245,7 +260,7 @@ def replay(inst, states, fails, viol, samples, n_draws, seed):
     env = make_env(inst["kind"], inst["n"], inst["K"])
     children = {}
     for (rec0, hist) in states:
-        if hist and hist[-1] != JUMP:
+        if hist and hist[-1][0] >= 0:            # (jumps, <<-1>> and <<-2>> o tour, are not moves of the mask)
             children.setdefault((rec0, hist[:-1]), set()).add(hist[-1])
     by_depth = {}
     for key in states:
@@ -358,8 +373,15 @@ def record_run(cfg, seed):
         for t in range(T):
             try:
                 if cfg.get("jump_every") and t % cfg["jump_every"] == cfg["jump_every"] - 1:
-                    td = env.step_to_solution(td, td["rec_best"])
-                    log.append(snap(torch.full((B, 1), -1, dtype=torch.long)))
+                    if (t // cfg["jump_every"]) % 2 == 0:
+                        td = env.step_to_solution(td, td["rec_best"])
+                        log.append(snap(torch.full((B, 1), -1, dtype=torch.long)))
+                    else:
+                        # an EXTERNAL solution: the visiting order 0, 1, ..., n-1 (valid for both kinds: every pickup p < its
+                        # delivery p + n/2) as successor array, for every row
+                        ext = ((torch.arange(n) + 1) % n).unsqueeze(0).expand(B, n).clone()
+                        td = env.step_to_solution(td, ext)
+                        log.append(snap(torch.cat((torch.full((B, 1), -2, dtype=torch.long), ext), 1)))
                     continue
                 if policy is None:
                     env._random_action(td)
